@@ -297,6 +297,16 @@ fn check_history(rep: &mut Report, engine: &str, case: &Value, items: &[(Cer, Op
             }
         }
     }
+    // ... and each of them is a credential of its own: the store holds at least as many credentials that
+    // were not there before as registrations succeeded (two registrations that end up under one id
+    // would both "be present")
+    {
+        let regs = items.iter().filter(|(cer, res, _, _)| matches!((cer, res), (Cer::Register, Some(Ok(_))))).count();
+        let created = final_store.iter().filter(|c| c.id != U2F_HANDLE && !(c.id.len() == 16 && (c.id[0] == 0x90 || c.id[0] == 0x91) && c.id.iter().all(|b| *b == c.id[0]))).count();
+        if created < regs {
+            rep.violate(&format!("{engine}: a successful registration's credential is missing from the store afterwards"), format!("{regs} registrations succeeded, the store holds {created} credential(s) that were not seeded"), case.clone());
+        }
+    }
     // U2F registrations of one key handle: when they did not overlap, the store holds the key the later one returned
     let u2f: Vec<(&Vec<u8>, u64, u64)> = items.iter().filter_map(|(cer, res, s, e)| if let (Cer::U2fRegister, Some(Ok((pk, _)))) = (cer, res) { Some((pk, *s, *e)) } else { None }).collect();
     if !u2f.is_empty() {
